@@ -78,12 +78,22 @@ def derive_source(case, schema_rel, query_rel):
     return "".join(parts)
 
 
+DEADLOCK_RC = -999
+
+
 def run_cli(args, cwd=None, timeout=120):
     exe = build.build_cli()
     env = build.cargo_env()
     env.pop("RUSTFLAGS", None)
-    p = subprocess.run([exe] + args, cwd=cwd, env=env, capture_output=True, timeout=timeout)
-    return p.returncode, p.stdout.decode("utf-8", "replace"), p.stderr.decode("utf-8", "replace")
+    from ..factory import watched_run
+    r = watched_run([exe] + args, b"", wall_s=timeout, cwd=cwd, env=env)
+    if r["deadlock"]:
+        # the CLI and what it spawned (rustfmt) wait for each other for good: reported as a distinguished exit status
+        return DEADLOCK_RC, r["stdout"].decode("utf-8", "replace"), "DEADLOCK: every thread of the command's process tree (%d) is parked in a wait only the tree itself could end, none scheduled for 2 s\n" % r["deadlock_threads"] + r["stderr_bytes"].decode("utf-8", "replace")
+    if r["timed_out"]:
+        raise subprocess.TimeoutExpired([exe] + args, timeout)
+    rc = r["exit"] if r["signal"] is None else -r["signal"]
+    return rc, r["stdout"].decode("utf-8", "replace"), r["stderr_bytes"].decode("utf-8", "replace")
 
 
 def cli_flags(o):
@@ -144,6 +154,38 @@ def gen_cases(run, n):
             c["options"]["response_derives"] = rng.choice([None, "Debug", "Clone,PartialEq", "Debug,PartialEq"])
             c["options"]["variables_derives"] = rng.choice([None, "Debug", "Clone"])
             c["options"] = {k: v for k, v in c["options"].items() if v is not None}
+        c["form"] = form
+        out.append(c)
+    return out
+
+
+def keyword_sweep_cases(rng):
+    """every keyword of the Rust reference at once, at every name position, in four documents (normalization none / rust,
+    library / derive form): what C11 does one name at a time, here as 'a supported input' in bulk"""
+    from ..model import Schema, T, NN
+    from .. import names as _n
+    kws = [k for k in _n.KEYWORDS if k != "Self"]
+    evals = [k for k in kws if k not in ("true", "false", "null")]
+    s = Schema()
+    s.add("KwEnum", {"kind": "enum", "values": evals})
+    s.add("KwIn", {"kind": "input", "one_of": False, "fields": [[k, T("Int")] for k in kws]})
+    s.add("KwOne", {"kind": "input", "one_of": True, "fields": [[k, T("Int")] for k in kws]})
+    s.add("KwObj", {"kind": "object", "implements": [], "fields": [{"name": k, "type": T("Int"), "args": [], "deprecated": None} for k in kws] +
+                    [{"name": "plain", "type": T("String"), "args": [], "deprecated": None}, {"name": "e", "type": NN(T("KwEnum")), "args": [], "deprecated": None}]})
+    s.add("Query", {"kind": "object", "implements": [], "fields": [{"name": "obj", "type": T("KwObj"), "args": [], "deprecated": None}]})
+    sel = [["field", None, "obj", None, [["field", None, k, None, None] for k in kws] + [["field", None, "e", None, None]]],
+           ["field", "aliased", "obj", None, [["field", k, "plain", None, None] for k in kws]]]
+    vs = [{"name": k, "type": T("Int"), "default": None} for k in kws] + [{"name": "kw_in", "type": T("KwIn"), "default": None}, {"name": "kw_one", "type": T("KwOne"), "default": None},
+                                                                            {"name": "kw_enum", "type": T("KwEnum"), "default": None}]
+    doc = {"operations": [{"kind": "query", "name": "KwSweep", "vars": vs, "sel": sel}], "fragments": []}
+    out = []
+    for i, (norm, form) in enumerate([(None, "library"), ("rust", "library"), (None, "derive"), ("rust", "derive")]):
+        opts = {"normalization": norm} if norm else {}
+        if form == "derive":
+            opts["mode"] = "derive"
+        c = C.make_case("kw%d" % i, s, doc, rng, options=opts, fmt="sdl" if i % 2 == 0 else "json", features=["keyword-sweep"])
+        if form == "library":
+            c["options"]["mode"] = "cli"
         c["form"] = form
         out.append(c)
     return out
@@ -255,6 +297,7 @@ def main(run):
         n = min(batch, total - done)
         cs = gen_cases(run, n)
         if bi == 0:
+            cs += keyword_sweep_cases(run.rng)
             for w in hazards.cases_for(run, "C02"):
                 w["form"] = w.get("form") or "library"
                 cs.append(w)
